@@ -56,7 +56,11 @@ def g3(F, X):
         if re.search(r"\.\s*sort_unstable(_by|_by_key)?\s*\(", body):
             stable = False
         elif re.search(r"\.\s*sort(_by|_by_key|_by_cached_key)?\s*\(", body):
-            stable = True
+            # ... and it is performed unconditionally (nothing returns or branches before it) on the number parsed from the hexadecimal
+            # address, not on the text of the message
+            m = re.search(r"\.\s*sort(_by|_by_key|_by_cached_key)?\s*\(", body)
+            before = body[:m.start()]
+            stable = not re.search(r"\breturn\b|\bif\b|\bmatch\b|\bwhile\b|\bfor\b", before) and "from_str_radix" in body[m.start():]
     F.add("error_sort_is_stable", "bool", stable, True,
           "error_stats.rs sort_error_msgs_by_mem_pos: is the sort by leading offset a stable sort")
     fin = X.fn_body(es, "finalize_stats")
